@@ -17,7 +17,8 @@ def theorems(pid):
 
 HEAD = r'''# DESIGN — machine-checked proof (Lean 4) for warcraft-rs properties C01–C20
 
-Status: built. All 20 properties are claimed in MANIFEST.json; every check exits 0 on the current /repo tree.
+Status: built. All 20 properties are claimed in MANIFEST.json; every check (quick and thorough) exits 0 on the current /repo
+tree; 197 property theorems; 200 seeded changes from five rounds of sub-agents are all reported.
 This file is assembled by `tools/mkdesign.py`: the prose is written by hand, the per-property tables, the
 findings list and the seeded-change table are generated from the same files the checks read.
 
@@ -45,7 +46,8 @@ input, size, operation history, crash point or schedule. For each property the d
 3. **a tie to /repo's current working tree, re-established on every run**:
    * *regeneration*: constants the theorems mention (1280-entry crypt table, fold tables, hash-type
      offsets, flag bits, header sizes, table keys, WDL counts) are dumped from the freshly compiled crates
-     (`wvh dump-consts`) into `Gen/Consts.lean`; the FFI lock-order graph is re-extracted from
+     (`wvh dump-consts`) into `Gen/Consts.lean`; the FFI lock-order graph and the shape of its close protocol (order of
+     SFileCloseArchive's sections, the search's second look-up, the open's lock scope) are re-extracted from
      `ffi/storm-ffi/src/lib.rs` into `Gen/Locks.lean`; the theorems over them are re-elaborated;
    * *correspondence*: a Rust harness (`harness/`, crate `wv-harness`, path-dependent on /repo's crates)
      generates structured inputs / operation histories from one PRNG seed, runs the **real code in
@@ -72,7 +74,7 @@ model says).
 /verif/check                 ./check Cxx --tier quick|thorough [--seed N] [--replay file]   (python3)
 /verif/setup.sh              builds harness, regenerates Gen/*, builds Lean library + wvmodel, builds the CLI
 /verif/lean/                 lake project WowVerif (no Mathlib anywhere; core + Std only)
-    WowVerif/Base, Lib       bytes, IFF chunk framing, exact binary32 arithmetic, Kahn acyclicity
+    WowVerif/Base, Lib       bytes, IFF chunk framing, fixed-layout records, exact binary32 arithmetic, Kahn acyclicity
     WowVerif/Spec            published algorithms (crypt table, hash, cipher, lookup3, MD5)
     WowVerif/Gen             GENERATED on every run from /repo (constants, lock graph)
     WowVerif/Model           executable models + DispatchNN.lean (request line -> answer)
